@@ -147,6 +147,7 @@ def check(repo: Repo, rep: Report) -> None:
     rep.ob("T1-delay-queue", root, "source.pipe(materialize(), timestamp()).subscribe(handler)", ok,
            "delay does not observe its source as timestamped notifications")
     TC.rule_scheduler_forwarded(rep, "F0-scheduler-forwarded", root)
+    TC.discipline(rep, root)
     d_ = repo.fn(DL, "delay_")
     ok = any(isinstance(s.node, ast.Return) and u(s.node.value) == f"observable_delay_timespan({', '.join(d_.params)})" for s in sites(d_))
     rep.ob("T1-delay-queue", d_, "delay_ -> observable_delay_timespan(source, duetime, scheduler)", ok, "delay_ no longer forwards its arguments to the implementation")
@@ -190,6 +191,7 @@ def check(repo: Repo, rep: Report) -> None:
     ok = len(ssub) == 1 and resolve_callable(start, subscribe_slots(ssub[0].node).get("on_error")).attr == "on_error"
     rep.ob("T3-delay-with-mapper", start, "source errors pass through at once", ok, "a source error is not delivered immediately")
     TC.rule_scheduler_forwarded(rep, "F0-scheduler-forwarded", wroot)
+    TC.discipline(rep, wroot)
     # ------------------------------------------------------------------ delay_subscription
     dsub = repo.fn(DS, "delay_subscription_")
     pl = TC.pipelines_of(dsub)
